@@ -49,12 +49,17 @@ def check_case(ctx, ds, lname, n, schemes):
         best = min(scores)
         minimal = set(c for c, v in zip(cands, scores) if v <= best + 1e-9)
         ctx.cases += 1
-        for one in (True, False):
-            case = {'cfg': {}, 'dataset': ds, 'labels': lname, 'n': n, 'scheme': s, 'one': one}
+        for one, reused in ((True, False), (False, False), (False, True), (True, True)):
+            case = {'cfg': {}, 'dataset': ds, 'labels': lname, 'n': n, 'scheme': s, 'one': one, 'reused_object': reused}
             ctx.evals += 1
+            if reused:
+                alg = _lib.setdefault('inst', _lib['A']())
+                ctx.count('executions_on_a_reused_algorithm_object')
+            else:
+                alg = _lib['A']()
             try:
                 with watchdog(30):
-                    c = _lib['A']().compute_consensus_rankings(dataset, scheme, one)
+                    c = alg.compute_consensus_rankings(dataset, scheme, one)
             except ACCIDENTAL as e:
                 ctx.violation('pickaperm-crashes', case, None, None, exc=e)
                 continue
